@@ -374,6 +374,8 @@ BENIGN = [
     ("diag-crop-written-with-slice-objects", [(NV, "        return padded[:rows, :cols]", "        return padded[slice(None, rows), slice(None, cols)]")]),
     ("tile-reps-offset-from-the-answers-rank", [(NV, "    first_axis = max(len(x_shape) - len(reps), 0)", "    first_axis = anp.ndim(ans) - len(reps)")]),
     ("kron-common-rank-from-the-answer", [(NV, "    ndim = max(anp.ndim(orig_A), anp.ndim(orig_B))\n", "    ndim = anp.ndim(ans)\n")]),
+    ("diag-crop-one-slice-per-entry-of-the-shape", [(NV, "        return padded[:rows, :cols]", "        return padded[tuple(slice(0, extent) for extent in anp.shape(x))]")]),
+    ("cumsum-flip-helper-with-leading-axis-fallback", [(NV, "        if axis:\n            g_cumsum = reverse_axis(anp.cumsum(reverse_axis(g, axis), axis), axis)\n        else:\n            g_cumsum = anp.cumsum(g[::-1], axis)[::-1]\n        return anp.reshape(g_cumsum, anp.shape(x))", "        flipped = lambda a: reverse_axis(a, axis) if axis else a[::-1]\n        g_cumsum = flipped(anp.cumsum(flipped(g), axis))\n        return anp.reshape(g_cumsum, anp.shape(x))")]),
 ]
 
 
